@@ -189,6 +189,9 @@ def plan_C18(tier, seed):
         for eng in ("debug", "release"):
             shards.append(sh(eng, "c18", seed + 1000 * rep, n, timeout=1800, ma=ma, iters=(10 if q else 1500), ops=150, quick=(1 if q else 0), vec_cases=(120 if q else 12000)))
             n += 1
+    # the Vec differential carries a C18-tagged monitor (reserve inside the capacity neither moves nor regrows)
+    for i, eng in enumerate(("debug", "release")):
+        shards.append(sh(eng, "vecdiff", seed, 740 + i, iters=(200 if q else 4000), ops=150))
     for i in range(1 if q else 5):
         shards.append(sh("miri", "c18", seed, 100 + i, timeout=1500, ma=MAS[(seed + i) % 5] if i else 1, iters=0, ops=0, stride=3))
     return dict(level="exploration",
